@@ -130,6 +130,7 @@ View == <<MS, epoch, G, ticks>>
 Inv == StateInv(MS, G)
 StepProps == /\ WithdrawExact /\ EscrowOnlyOwnMoves /\ EndLegit /\ IdsFresh /\ PublishRules /\ PublishFunded
              /\ ActivationRules /\ ActivatedOnce /\ ActivatedOnceInCall /\ TerminationEndsDeals /\ RejectedIsNoop
+             /\ NoStranding
 StepOK == [][StepProps]_mcvars
 
 \* transition tour
